@@ -188,7 +188,8 @@ func gen(t *rapid.T) Case {
 	if h.Thorough() {
 		depth = rapid.IntRange(2, 5).Draw(t, "depth")
 	}
-	s := schemagen.Gen(schemagen.Options{Depth: depth, OddNames: true}).Draw(t, "schema")
+	// readOnly / writeOnly on properties: annotations as far as plain validation goes, whatever else the schema says
+	s := schemagen.Gen(schemagen.Options{Depth: depth, OddNames: true, ReadWrite: rapid.Bool().Draw(t, "readwrite")}).Draw(t, "schema")
 	v := schemagen.GenValue(s, depth+1).Draw(t, "value")
 	rep := rapid.SampledFrom([]string{"float64", "number"}).Draw(t, "rep")
 	return Case{Schema: jv.Canon(s), Value: jv.Canon(v), Rep: rep}
